@@ -84,6 +84,12 @@ func v2ops() []v2op {
 			v2.AddIndex(ctx, c, "base", fmt.Sprintf("ix%d", g), "g", "")
 		}},
 		{"ClearOther", func(c *v2.Client, g, i int) { v2.ClearTable(c, "other") }},
+		// the helper on the table every other operation works on
+		{"ClearBase", func(c *v2.Client, g, i int) {
+			if i%2 == 0 {
+				v2.ClearTable(c, "base")
+			}
+		}},
 		{"Failure", func(c *v2.Client, g, i int) {
 			v2.EmulateFailure(c, v2.FailureConditionInternalServerError)
 			v2.EmulateFailure(c, v2.FailureConditionNone)
@@ -195,6 +201,13 @@ func TestPairsV1(t *testing.T) {
 			v1.EmulateFailure(c, v1.FailureConditionNone)
 			c.SetInterpreter(interpreter.NewNativeInterpreter())
 			c.TransactWriteItems(&v1sdk.TransactWriteItemsInput{})
+		},
+		// the helper on the table every other operation works on
+		func(g, i int) {
+			if i%2 == 0 {
+				v1.ClearTable(c, "base")
+			}
+			c.DescribeTable(&v1sdk.DescribeTableInput{TableName: aws.String("base")})
 		},
 	}
 	var wg sync.WaitGroup
@@ -325,5 +338,69 @@ func TestOneWinner(t *testing.T) {
 		if wins != 1 {
 			t.Errorf("ATOMICITY %d of %d racing conditional puts succeeded", wins, n)
 		}
+	}
+}
+
+// the ClearTable helper while other goroutines write to the same table: no data race, and afterwards the table and
+// its index agree on what is stored
+func TestClearTableWhileWriting(t *testing.T) {
+	// v1
+	c1 := v1.NewClient()
+	v1.AddTable(c1, "base", "h", "")
+	v1.AddIndex(c1, "base", "idx", "g", "")
+	var wg sync.WaitGroup
+	for g := 0; g < 4; g++ {
+		wg.Add(1)
+		go func(g int) {
+			defer wg.Done()
+			for i := 0; i < 40*rounds()/30; i++ {
+				c1.PutItem(&v1sdk.PutItemInput{TableName: aws.String("base"), Item: map[string]*v1sdk.AttributeValue{"h": {S: aws.String(fmt.Sprint(g, "-", i))}, "g": {S: aws.String("x")}}})
+			}
+		}(g)
+	}
+	wg.Add(1)
+	go func() {
+		defer wg.Done()
+		for i := 0; i < 20*rounds()/30; i++ {
+			v1.ClearTable(c1, "base")
+		}
+	}()
+	wg.Wait()
+	d1, err := c1.DescribeTable(&v1sdk.DescribeTableInput{TableName: aws.String("base")})
+	if err != nil {
+		t.Fatal(err)
+	}
+	s1, _ := c1.Scan(&v1sdk.ScanInput{TableName: aws.String("base")})
+	x1, _ := c1.Scan(&v1sdk.ScanInput{TableName: aws.String("base"), IndexName: aws.String("idx")})
+	if int(*d1.Table.ItemCount) != len(s1.Items) || len(x1.Items) != len(s1.Items) || *d1.Table.GlobalSecondaryIndexes[0].ItemCount != *d1.Table.ItemCount {
+		t.Errorf("ATOMICITY v1 ClearTable||PutItem: table count %d, scan %d, index scan %d, index count %d", *d1.Table.ItemCount, len(s1.Items), len(x1.Items), *d1.Table.GlobalSecondaryIndexes[0].ItemCount)
+	}
+	// v2
+	c2 := newV2(t)
+	for g := 0; g < 4; g++ {
+		wg.Add(1)
+		go func(g int) {
+			defer wg.Done()
+			for i := 0; i < 40*rounds()/30; i++ {
+				c2.PutItem(ctx, &dynamodb.PutItemInput{TableName: aws.String("base"), Item: map[string]v2types.AttributeValue{"h": s2(fmt.Sprint(g, "-", i)), "g": s2("x")}})
+			}
+		}(g)
+	}
+	wg.Add(1)
+	go func() {
+		defer wg.Done()
+		for i := 0; i < 20*rounds()/30; i++ {
+			v2.ClearTable(c2, "base")
+		}
+	}()
+	wg.Wait()
+	d2, err := c2.DescribeTable(ctx, &dynamodb.DescribeTableInput{TableName: aws.String("base")})
+	if err != nil {
+		t.Fatal(err)
+	}
+	sc2, _ := c2.Scan(ctx, &dynamodb.ScanInput{TableName: aws.String("base")})
+	x2, _ := c2.Scan(ctx, &dynamodb.ScanInput{TableName: aws.String("base"), IndexName: aws.String("idx")})
+	if int(*d2.Table.ItemCount) != len(sc2.Items) || len(x2.Items) != len(sc2.Items) {
+		t.Errorf("ATOMICITY v2 ClearTable||PutItem: table count %d, scan %d, index scan %d", *d2.Table.ItemCount, len(sc2.Items), len(x2.Items))
 	}
 }
